@@ -713,10 +713,22 @@ class Interp:
         except Exception as e:
             raise PyExc(e)
 
+    _REPO_CLASS_CACHE = {}
+
     def _is_repo_class(self, cls):
-        mod = sys.modules.get(cls.__module__)
-        f = getattr(mod, "__file__", None) or ""
-        return f.startswith(REPO_ROOT + os.sep)
+        """class defined in the repository, or a (harness) subclass of one: attribute access then follows the MRO
+        so that inherited repository methods / properties are interpreted"""
+        r = self._REPO_CLASS_CACHE.get(cls)
+        if r is None:
+            r = False
+            for k in getattr(cls, "__mro__", (cls,)):
+                mod = sys.modules.get(getattr(k, "__module__", None))
+                f = getattr(mod, "__file__", None) or ""
+                if f.startswith(REPO_ROOT + os.sep):
+                    r = True
+                    break
+            self._REPO_CLASS_CACHE[cls] = r
+        return r
 
     def _has_repo_init(self, cls):
         return is_repo_function(self.class_lookup(cls, "__init__"))
@@ -1519,6 +1531,10 @@ class Interp:
 
     def e_GeneratorExp(self, e, sc):
         # evaluated eagerly (side-effect free element expressions in this code base)
+        if self.comp_contracts:
+            r = self.models.comp_hook(self, e, sc, contracts_only=True)
+            if r is not NotImplemented:
+                return r
         out = []
         self._comp(e.generators, sc, lambda s: out.append(self.ev(e.elt, s)))
         return out
